@@ -104,9 +104,21 @@ Definition drop_taxa (S : list Z) : npred :=
   fun _ x => match x with Some a => negb (memz a S) | None => false end.
 Definition keep_ids (S : list Z) : npred := fun i _ => memz i S.
 
+Definition has_taxon : npred := fun _ x => match x with Some _ => true | None => false end.
+
 (* clades, distances, accumulated lengths (used by the theorems) *)
 Definition leaf_ids (t : tree) : list Z := map t_id (leaves t).
 Definition clades (t : tree) : list (list Z) := map leaf_ids (preorder t).
+(* the surviving leaves below a node of the source, in leaf order *)
+Definition kept_ids (p : npred) (n : tree) : list Z := map t_id (filter (app_np p) (leaves n)).
+
+(* n, n+1, ..., n+k-1 *)
+Fixpoint zseq (n : Z) (k : nat) : list Z :=
+  match k with O => [] | S k' => n :: zseq (n + 1) k' end.
+
+(* the content of a tree with node identities forgotten *)
+Fixpoint erase (t : tree) : tree :=
+  match t with T _ x l e ks => T 0 x l e (map erase ks) end.
 
 (* length of the path from the root NODE of t down to node a (t's own edge not counted) *)
 Fixpoint rd (a : Z) (t : tree) : option Z :=
